@@ -169,6 +169,41 @@ def xy_spec(draw, families=None, costs=("chi2",), n_sources=(0, 4), x_errors=Tru
 
 
 @st.composite
+def xy_long_spec(draw, costs=("chi2",), minimizers=("iminuit",), n_points=(20, 200), y_scales=(None, None, 1e-3, 1e-5, 1e-7, 1e3, 1e5)):
+    """xy problems with MANY points (the other generators stop at 8): straight line / parabola, one or two simple y sources (scalar or smoothly varying vector,
+    optionally correlated), data = model + deterministic pseudo-noise, any unit of y.  Sizes are a dimension of their own: sums over points, products over
+    variances and vectorised fast paths only show their limits there."""
+    fam = draw(st.sampled_from(["line", "quad"]))
+    F = models.family(fam)
+    n = draw(st.integers(*n_points))
+    truth = draw(truth_for(fam))
+    x = np.linspace(0.3, 9.7, n)
+    y0 = F.f(x, truth)
+    scale = float(np.max(np.abs(y0))) or 1.0
+    base_sigma = draw(st.floats(0.01, 0.1)) * scale
+    ph = draw(st.floats(0.0, 6.0))
+    idx = np.arange(n)
+    noise = np.sin(1.7 * idx + ph) + 0.5 * np.cos(0.31 * idx * idx + 2.0 * ph)
+    y = y0 + noise * base_sigma
+    sources = []
+    for i in range(draw(st.integers(1, 2))):
+        scalar = draw(st.booleans())
+        amp = draw(st.floats(0.5, 1.5)) * base_sigma
+        err = [float(amp)] * n if scalar else [float(amp * (1.0 + 0.5 * np.sin(0.9 * k + i))) for k in range(n)]
+        sources.append({"name": f"s{i}", "ref": "data", "axis": "y", "kind": "simple", "scalar": scalar, "err": err, "rho": draw(st.sampled_from([0.0, 0.0, 0.3, 0.7])),
+                        "relative": False, "enabled": True})
+    y_scale = draw(st.sampled_from(list(y_scales)))
+    if y_scale is not None:
+        y = y * y_scale
+        for s_ in sources:
+            s_["err"] = [v * y_scale for v in s_["err"]]
+    tb = dict(zip(F.params, truth))
+    return {"type": "xy", "family": fam, "order": list(F.params), "x": [float(v) for v in x], "y": [float(v) for v in y], "truth": tb, "cost": draw(st.sampled_from(list(costs))),
+            "sources": sources, "constraints": [], "start": {nm: tb[nm] * 1.05 for nm in F.params}, "fixed": {}, "limits": {},
+            "minimizer": draw(st.sampled_from(list(minimizers))), "dea": "nonlinear", "sigma": base_sigma * (y_scale or 1.0), "y_scale": y_scale}
+
+
+@st.composite
 def indexed_spec(draw, costs=("chi2",), n_sources=(0, 4), model_sources=True, constraints=True, fixed=True, nonlinear=False,
                  minimizers=("iminuit",), poisson_data=False, relative_model=True):
     n_par = draw(st.integers(1, 3))
